@@ -24,7 +24,7 @@ def classify(exc):
     return '%s@%s' % (t, site)
 
 
-def oracle_case(ctx, case, jcase):
+def oracle_case(ctx, case, jcase, g=None):
     ok = True
     calls = [('validate', lambda v, d: v.validate(d, update=case.get('update', False))),
              ('validate(normalize=False)', lambda v, d: v.validate(d, update=case.get('update', False), normalize=False)),
@@ -43,6 +43,21 @@ def oracle_case(ctx, case, jcase):
             ctx.fail('C03 oracle: %s raised %s' % (name, classify(e)), dict(jcase, call=name),
                      classifier='raise:' + classify(e), detail=repr(e)[:300])
             ok = False
+    # the same on one validator that is used again and again: first the document, then a near-valid one
+    if ok and g is not None:
+        docs = [case['doc'], g.document(case['schema'], extra=0.0, missing=0.1), case['doc']]
+        v = real.make_validator(case)
+        for k, d in enumerate(docs):
+            for name, call in calls:
+                try:
+                    call(v, copy.deepcopy(d))
+                    _ = v.errors
+                except Exception as e:
+                    ctx.fail('C03 oracle: %s raised %s on a validator that processed %d document(s) before'
+                             % (name, classify(e), k * len(calls) + [n for n, _ in calls].index(name)),
+                             dict(jcase, call=name, reused=True, docs=[codec.enc_val(x) for x in docs[:k + 1]]),
+                             classifier='raise:' + classify(e), detail=repr(e)[:300])
+                    return False
     return ok
 
 
@@ -81,7 +96,7 @@ def run(ctx, n):
                 ctx.dist('skipped', 'schema not accepted')
                 continue
             jcase = real.enc_case(case)
-            oracle_case(ctx, case, jcase)
+            oracle_case(ctx, case, jcase, g)
             if i % 25 == 0:
                 oracle_declared(ctx, case, jcase, random.Random(i))
             st, detail = c01.compare(ctx, drv, case)
@@ -104,5 +119,5 @@ def search(ctx, n):
     for i, prof, case, g in cases.stream(ctx.seed + 7919, n, profiles):
         if cases.accepted(case) is not True:
             continue
-        if not oracle_case(ctx, case, real.enc_case(case)):
+        if not oracle_case(ctx, case, real.enc_case(case), g):
             return
